@@ -264,6 +264,121 @@ func runSLCase(p *sut.Proc, sc slCase, serverPub []byte) (out slOutcome) {
 	return
 }
 
+// runSLChained: k measurements of 3 rounds on one connection, each request
+// written directly behind the final ping answer of the one before (the client
+// does not wait for the report). Every request gets exactly one report, under
+// its own request id, carrying its own wallet and exactly the ping ids issued
+// between this request and the next.
+func runSLChained(p *sut.Proc, k int) (findings []*check.Finding, inconc string, completed int) {
+	defer func() {
+		if r := recover(); r != nil {
+			inconc = fmt.Sprint("C18 chained: ", r)
+		}
+	}()
+	c := scen.MustDial(p, "vod")
+	defer c.Close()
+	c.Timeout = 15 * time.Second
+	if _, _, err := c.Join(""); err != nil {
+		panic(err)
+	}
+	type meas struct {
+		id     uint32
+		wallet string
+		pings  []uint32
+	}
+	var ms []*meas
+	start := func() {
+		m := &meas{id: c.NextReqID(), wallet: fmt.Sprintf("0xCHAIN%02d", len(ms))}
+		ms = append(ms, m)
+		if err := c.Send(&hagallpb.SignedLatencyRequest{Type: d.TSignedLatReq, Timestamp: d.NewTag(), RequestId: m.id, IterationCount: 3, WalletAddress: m.wallet}); err != nil {
+			panic(err)
+		}
+	}
+	start()
+	reports := map[uint32][]*hagallpb.SignedLatencyResponse{}
+	handle := func(e *d.Event) {
+		if r, ok := e.M.(*hagallpb.SignedLatencyResponse); ok {
+			reports[r.RequestId] = append(reports[r.RequestId], r)
+		}
+	}
+	for len(ms) <= k {
+		cur := ms[len(ms)-1]
+		ev, before, err := waitEvent(c, func(e *d.Event) bool { return e.Type == d.TPingReq })
+		for _, e := range before {
+			handle(e)
+		}
+		if err != nil {
+			findings = append(findings, c18f("rounds/stalled", "chained", "measurement %d of a chain (request id %d): no further ping request arrived (%v)", len(ms), cur.id, err))
+			return
+		}
+		id := ev.M.(*hagallpb.Response).RequestId
+		cur.pings = append(cur.pings, id)
+		if err := c.Send(&hagallpb.Response{Type: d.TPingResp, Timestamp: d.NewTag(), RequestId: id}); err != nil {
+			panic(err)
+		}
+		if len(cur.pings) == 3 {
+			if len(ms) == k {
+				break
+			}
+			start() // directly behind the final answer
+		}
+	}
+	win, err := c.Barrier()
+	if err != nil {
+		panic(err)
+	}
+	for _, e := range win {
+		handle(e)
+	}
+	// the last report may still be on its way (it is produced after the final answer)
+	for round := 0; round < 40 && len(reports[ms[len(ms)-1].id]) == 0; round++ {
+		win, err := c.Barrier()
+		if err != nil {
+			panic(err)
+		}
+		for _, e := range win {
+			handle(e)
+		}
+		time.Sleep(5 * time.Millisecond)
+	}
+	for i, m := range ms {
+		rs := reports[m.id]
+		if len(rs) != 1 {
+			findings = append(findings, c18f("response/not-exactly-one-per-request", "chained", "measurement %d of a back-to-back chain (request id %d, wallet %s) got %d reports; reports per request id: %v", i+1, m.id, m.wallet, len(rs), func() map[uint32]int {
+				o := map[uint32]int{}
+				for id, l := range reports {
+					o[id] = len(l)
+				}
+				return o
+			}()))
+			continue
+		}
+		var ld hagallpb.LatencyData
+		if err := proto.Unmarshal(rs[0].Data, &ld); err != nil {
+			findings = append(findings, c18f("response/data-undecodable", "chained", "report of request %d: %v", m.id, err))
+			continue
+		}
+		same := len(ld.PingRequestIds) == len(m.pings)
+		if same {
+			set := map[uint32]bool{}
+			for _, id := range ld.PingRequestIds {
+				set[id] = true
+			}
+			for _, id := range m.pings {
+				if !set[id] {
+					same = false
+				}
+			}
+		}
+		if ld.WalletAddress != m.wallet || !same || ld.IterationCount != 3 {
+			findings = append(findings, c18f("response/bound-to-another-measurement", "chained", "the report under request id %d (wallet %s, pings %v) carries wallet %q, iteration count %d and ping ids %v", m.id, m.wallet, m.pings, ld.WalletAddress, ld.IterationCount, ld.PingRequestIds))
+			continue
+		}
+		completed++
+	}
+	return
+}
+
 func partSignedLatency(c *check.Ctx, a *acc) {
 	bin, err := c.WS.Build("lab", "plain")
 	if err != nil {
@@ -338,6 +453,25 @@ func partSignedLatency(c *check.Ctx, a *acc) {
 			samples = append(samples, map[string]any{"engine": "C18 script", "case": cases[i].String(), "completed": out.completed})
 		}
 	})
+	chains := c.Pick(6, 40)
+	chained := 0
+	parallel(chains, 6, func(i int) {
+		f, inc, n := runSLChained(procs[i%len(procs)], 12)
+		mu.Lock()
+		defer mu.Unlock()
+		done++
+		chained += n
+		if n > 0 {
+			completed++
+		}
+		if inc != "" {
+			c.Inconc(inc)
+		}
+		for _, x := range f {
+			c.Report(x)
+		}
+	})
+	c.Coverage["chained_measurements_checked"] = chained
 	c.Coverage["signed_latency_cases"] = done
 	c.Coverage["measurements_completed_and_fully_checked"] = completed
 	c.Coverage["requests_refused_and_checked"] = refused
